@@ -122,16 +122,43 @@ def judge_parse(ctx, mon, cfg, parser, prods, start, toks, text, expected, smart
     return True
 
 
-def run_case(ctx, mon, cfg_id, terms, prods, inputs_spec=None, rng=None):
+def add_any_token_except(rng, cfg, prods):
+    """one symbol gets the pseudo production AnyTokenExcept(...): `prods` receives the single-token productions
+    it stands for (one per terminal of the tokenizer that is not excluded); returns (symbol, excluded)"""
+    sym = rng.choice(sorted(prods))
+    have = {a[0] for a in prods[sym] if len(a) == 1}
+    excluded = sorted(set(rng.sample(cfg.terminals, rng.randint(0, len(cfg.terminals) - 1))) | (have & set(cfg.terminals)))
+    added = [(t,) for t in cfg.terminals if t not in excluded]
+    if not added:
+        return None
+    prods[sym] = list(prods[sym]) + added
+    return [sym, excluded]
+
+
+def ctor_productions(cfg, prods, any_spec):
+    """what the constructor gets: the productions, the expansion replaced by the AnyTokenExcept object"""
+    if not any_spec:
+        return prods
+    sym, excluded = any_spec
+    n_added = len([t for t in cfg.terminals if t not in excluded])
+    out = {k: list(v) for k, v in prods.items()}
+    out[sym] = out[sym][:len(out[sym]) - n_added] + [llparser.AnyTokenExcept(*excluded)]
+    return out
+
+
+def run_case(ctx, mon, cfg_id, terms, prods, inputs_spec=None, rng=None, any_spec=None):
     cfg = llmon.TOKCFGS[cfg_id]
     start = 'E'
     if gram.left_recursion_cycle(prods):
         ctx.count("grammars_left_recursive(skipped)")
         return
     parsers = {}
+    if any_spec:
+        ctx.count("grammars_with_AnyTokenExcept")
     for smart in (True, False):
         try:
-            parsers[smart] = cfg.make_parser(prods, start, smart_factorization=smart)
+            parsers[smart] = cfg.make_parser(ctor_productions(cfg, prods, any_spec), start,
+                                             smart_factorization=smart)
         except AssertionError:
             ctx.count("ctor_assert(out of domain)")
         except llparser.GrammarError:
@@ -181,6 +208,7 @@ def run_case(ctx, mon, cfg_id, terms, prods, inputs_spec=None, rng=None):
         for smart, parser in parsers.items():
             ctx.evaluated()
             case = {"cfg": cfg_id, "terms": terms, "prods": {k: [list(a) for a in v] for k, v in prods.items()},
+                    "any_token_except": any_spec,
                     "inputs": [[toks, text, [list(x) for x in expected], as_lines, explicit]]}
             judge_parse(ctx, mon, cfg, parser, prods, start, toks, text, expected, smart, as_lines, case, explicit)
     return inputs_spec
@@ -192,7 +220,11 @@ def run_shard(ctx):
         for i in range(ctx.cases):
             rng = ctx.rng(i)
             cfg_id, terms, prods = make_case(rng)
-            spec = run_case(ctx, mon, cfg_id, terms, prods, rng=rng)
+            any_spec = None
+            if rng.random() < 0.15 and "SPACE" not in llmon.TOKCFGS[cfg_id].terminals:
+                any_spec = add_any_token_except(rng, llmon.TOKCFGS[cfg_id], prods)
+                terms = list(llmon.TOKCFGS[cfg_id].terminals)
+            spec = run_case(ctx, mon, cfg_id, terms, prods, rng=rng, any_spec=any_spec)
             if spec and i % 50 == 0:
                 ctx.sample({"tokenizer": llmon.TOKCFGS[cfg_id].name, "grammar": gram.fmt_grammar(prods),
                             "text": spec[0][1], "tokens": spec[0][0]})
@@ -204,6 +236,7 @@ def replay(ctx, case):
     mon = llmon.ParseMonitor()
     try:
         prods = {k: [tuple(a) for a in v] for k, v in case["prods"].items()}
-        run_case(ctx, mon, case["cfg"], case["terms"], prods, inputs_spec=case["inputs"])
+        run_case(ctx, mon, case["cfg"], case["terms"], prods, inputs_spec=case["inputs"],
+                 any_spec=case.get("any_token_except"))
     finally:
         mon.close()
